@@ -10,6 +10,10 @@ Value equality for all const expressions is NOT decided. Decided structural clau
   3 SAMELANG      every initializer form the evaluator can accept lowers to an IR form the emitter's const validator
                   can accept
   4 CONSTFN       every runtime helper the emitter can splice into a const initializer is a `const fn`
+  5 OPERANDS      both operands of a binary const expression are evaluated on every path (no short-circuit that skips
+                  the diagnostics of one side)
+  6 RAWARITH      the const evaluator never folds `//`, `%`, `/`, `**` with Rust's native operators (truncation vs
+                  floor); folding is only sound through the shared incan_core kernels
 """
 from engines import (AST, IR, arm_regions, callee_generic, callee_name, discr_switches, op_place, postdominators,
                      primary_dispatch, quote_paths, region_outputs, short, all_string_constants)
